@@ -5,10 +5,12 @@ package main
 // Ported from the design-phase prototype; obligation keys are rule+function+construct (ordinals, never lines).
 
 import (
+	"bytes"
 	"fmt"
 	"go/constant"
 	"go/token"
 	"go/types"
+	"os"
 	"sort"
 	"strings"
 
@@ -394,6 +396,60 @@ func (a *analyzer) res(st *state, v ssa.Value) ssa.Value {
 		}
 	}
 	return v
+}
+
+// normalisePeeks rewrites, in a reader's view, step-back-then-read-again sequences that come from inlined peek/expect
+// helpers into the plain read + conditional step-back form (ssa.CancelInverseCalls); the view must stay well-formed.
+func (a *analyzer) normalisePeeks(v *ssa.Function) {
+	if origFn(v) == v {
+		return // nothing was inlined: the function is as written
+	}
+	isCursor := func(t types.Type) bool {
+		if pt, ok := t.(*types.Pointer); ok {
+			t = pt.Elem()
+		}
+		return a.cursorT != nil && types.Identical(t, a.cursorT)
+	}
+	touches := func(in ssa.Instruction) bool {
+		switch x := in.(type) {
+		case *ssa.FieldAddr:
+			return isCursor(x.X.Type())
+		case *ssa.Field:
+			return isCursor(x.X.Type())
+		case ssa.CallInstruction:
+			c := x.Common()
+			if c.IsInvoke() {
+				return false
+			}
+			for _, arg := range c.Args {
+				if isCursor(arg.Type()) {
+					return true
+				}
+			}
+			if _, isFn := c.Value.(*ssa.Function); !isFn {
+				if _, isB := c.Value.(*ssa.Builtin); !isB {
+					return true // a function value: unknown effects
+				}
+			}
+		case *ssa.Return, *ssa.Panic:
+			return true
+		}
+		return false
+	}
+	isDo := func(c *ssa.Call) bool { return c.Call.StaticCallee() == a.next }
+	isUndo := func(c *ssa.Call) bool { return c.Call.StaticCallee() == a.back }
+	if os.Getenv("VLDEBUG") == v.Name() {
+		v.WriteTo(os.Stderr)
+	}
+	if ssa.CancelInverseCalls(v, isDo, isUndo, touches) {
+		if os.Getenv("VLDEBUG") == v.Name() {
+			v.WriteTo(os.Stderr)
+		}
+		var buf bytes.Buffer
+		if !ssa.SanityCheckFunction(v, &buf) {
+			brokenf("peek normalisation of %s failed the SSA sanity check:\n%s", funcFullName(v), buf.String())
+		}
+	}
 }
 
 func (a *analyzer) isCursorMethod(f *ssa.Function) bool {
@@ -1053,7 +1109,23 @@ func RunCursor(p *Prog, pkgpath string) *CursorResult {
 	// result, or (node, error)) and the two primitives stay calls and are summarised.
 	regular := func(f *ssa.Function) bool {
 		res := f.Signature.Results()
-		return res.Len() == 1 || res.Len() == 2 && isErrorType(res.At(1).Type())
+		if res.Len() == 1 {
+			// a loop-free method that answers with a number or a truth value (`peek() int`, `expect(c byte) bool`) is a
+			// cursor idiom of its callers, not a reader of a grammar element
+			if b, ok := res.At(0).Type().Underlying().(*types.Basic); ok && b.Info()&(types.IsBoolean|types.IsInteger) != 0 {
+				loop := false
+				for _, blk := range f.Blocks {
+					if blockInLoop(blk) {
+						loop = true
+					}
+				}
+				if !loop {
+					return false
+				}
+			}
+			return true
+		}
+		return res.Len() == 2 && isErrorType(res.At(1).Type())
 	}
 	keep := func(callee *ssa.Function) bool {
 		return callee == a.next || callee == a.back || !a.isCursorMethod(callee) || regular(callee)
@@ -1078,7 +1150,9 @@ func RunCursor(p *Prog, pkgpath string) *CursorResult {
 				continue
 			}
 		}
-		views = append(views, p.Inlined(f, keep))
+		v := p.Inlined(f, keep)
+		a.normalisePeeks(v)
+		views = append(views, v)
 	}
 	a.methods = views
 	for round := 0; round < 20; round++ {
